@@ -136,7 +136,30 @@ func genRepeatedSection(t *rapid.T) (frame []byte, class string, nontrivial bool
 		nontrivial = true
 		class += "/long"
 	}
-	switch rapid.IntRange(0, 6).Draw(t, "damage") {
+	switch rapid.IntRange(0, 8).Draw(t, "damage") {
+	case 7, 8: // one inner length field inflated far beyond the data that follows
+		lfs := ref.LengthFields(spans)
+		var inner []ref.LenField
+		for _, lf := range lfs {
+			if lf.Kind != ref.KRemLen {
+				inner = append(inner, lf)
+			}
+		}
+		if len(inner) == 0 {
+			return f, class + "/intact", nontrivial
+		}
+		lf := inner[rapid.IntRange(0, len(inner)-1).Draw(t, "inflate")]
+		var nv uint32
+		if lf.Kind == ref.KStr || lf.Kind == ref.KBin {
+			nv = rapid.SampledFrom([]uint32{65532, 65533, 65534, 65535, 32768}).Draw(t, "inflateto")
+		} else {
+			nv = rapid.SampledFrom([]uint32{65535, 2097151, 2097152, 268435455, 1 << 24}).Draw(t, "inflateto")
+		}
+		g := setLenField(f, lf, nv)
+		if fb, _, b2, ok := ref.Split(g); ok {
+			g = ref.Reframe(fb, b2)
+		}
+		return g, class + "/inflated-inner-length", true
 	case 0: // intact
 		return f, class + "/intact", nontrivial
 	case 1, 2: // truncate anywhere in the body, remaining length patched
